@@ -2,6 +2,7 @@ package main
 
 import (
 	"fmt"
+	"strings"
 
 	"golang.org/x/tools/go/ssa"
 )
@@ -34,6 +35,8 @@ func inPkg(fn *ssa.Function, path string) bool {
 
 func runC08(c *Ctx) {
 	w := c.W
+	// findVerifiedParents returns the members for which CheckSignatureFrom succeeds: C03's rule for it applies here
+	c.borrow(runC03, func(o *Obligation) bool { return strings.Contains(o.Func, "CheckSignatureFrom") })
 	fw := w.FieldWrites()
 	poolFields := []string{"CertPool.certs", "CertPool.bySHA256", "CertPool.byName", "CertPool.bySubjectKeyId"}
 	nWrites := 0
